@@ -529,9 +529,14 @@ static int run_batch() {
         } else if (line[0] == 'D') { R.det_mismatch++; }
     };
 
+    std::vector<Known> known_early = load_known();
     int live = W;
     while (live > 0) {
-        if (O.stop_early && !R.first_viol.empty()) { aborted = true; break; }
+        if (O.stop_early) {   // selftests: end the batch at the first violation that is not a recorded known finding
+            bool fresh = false;
+            for (auto &kv : R.first_viol) { bool k = false; for (auto &kn : known_early) if (kn.status == "known" && kn.property == O.prop && kn.tag == kv.first) k = true; if (!k) fresh = true; }
+            if (fresh) { aborted = true; break; }
+        }
         fd_set rf; FD_ZERO(&rf); int mx = -1;
         for (auto &w : ws) if (w.fd >= 0) { FD_SET(w.fd, &rf); mx = std::max(mx, w.fd); }
         if (mx < 0) break;
